@@ -17,7 +17,7 @@ Inductive sstate :=
 
 Inductive result := RNil | RErr | RCtx.
 
-Inductive apc := AAccepting | AHasConn (c : nat) | ASpawn (c : nat) | AReturned (r : result).
+Inductive apc := ANotStarted | AAccepting | AHasConn (c : nat) | ASpawn (c : nat) | AReturned (r : result).
 Inductive spc := SNotCalled | SDoneClosed | SLisClosed | SWaiting | SReturned (r : result).
 Inductive wpc := WNotStarted | WWaiting | WWoken | WSignalled.
 
@@ -34,9 +34,10 @@ Record st := {
 
 Definition init : st :=
   {| done := false; lis_closed := false; backlog := []; sess := []; wg := 0;
-     a_pc := AAccepting; s_pc := SNotCalled; w_pc := WNotStarted; ctx_expired := false; answered := [] |}.
+     a_pc := ANotStarted; s_pc := SNotCalled; w_pc := WNotStarted; ctx_expired := false; answered := [] |}.
 
 Inductive label :=
+| LServeStart              (* Serve is called: lock; s.l = l; defaults; unlock; close(initializedCh) *)
 | LConnect                 (* environment: a client connects *)
 | LAcceptDequeue           (* acceptor: Accept returns the head of the backlog *)
 | LAcceptFail              (* acceptor: Accept fails because the listener is closed *)
@@ -82,6 +83,17 @@ Definition set_wg (s : st) (x : Z) : st :=
 
 Definition step (fixed : bool) (s : st) (l : label) : option st :=
   match l with
+  | LServeStart =>
+      match a_pc s with
+      | ANotStarted =>
+          (* Shutdown already called: nothing is accepted; the deferred l.Close() closes the listener, Serve returns nil *)
+          if done s
+          then Some {| done := done s; lis_closed := true; backlog := backlog s; sess := sess s; wg := wg s;
+                       a_pc := AReturned RNil; s_pc := s_pc s; w_pc := w_pc s; ctx_expired := ctx_expired s;
+                       answered := answered s |}
+          else Some (set_a s AAccepting)
+      | _ => None
+      end
   | LConnect =>
       if lis_closed s then None
       else Some {| done := done s; lis_closed := false; backlog := backlog s ++ [length (sess s)];
@@ -146,7 +158,9 @@ Definition step (fixed : bool) (s : st) (l : label) : option st :=
   | LShCloseListener =>
       match s_pc s with
       | SDoneClosed =>
-          Some {| done := done s; lis_closed := true; backlog := backlog s; sess := sess s; wg := wg s;
+          (* if s.l != nil { s.l.Close() }: before Serve has stored the listener there is nothing to close *)
+          Some {| done := done s; lis_closed := match a_pc s with ANotStarted => lis_closed s | _ => true end;
+                  backlog := backlog s; sess := sess s; wg := wg s;
                   a_pc := a_pc s; s_pc := SLisClosed; w_pc := w_pc s; ctx_expired := ctx_expired s; answered := answered s |}
       | _ => None
       end
